@@ -95,7 +95,8 @@ static void item_block(uint64_t idx)
 		for (int t = 0; t < NTOPS; t++) check_range(s, TOPS[t], &rp);
 	}
 	MC_COUNTN("range_calls", n_calls); MC_COUNTN("range_calls_with_rejection", n_multi);
-	{ static int cid[65]; char nm[40]; snprintf(nm, sizeof nm, "max_generator_steps_%02llu", (unsigned long long)max_iter_seen); (void)cid; mc_count_id(&cid[max_iter_seen], nm, 1); }
+	{ static int cid[65], init; char nm[40]; if (!init) { init = 1; for (int i = 0; i < 65; i++) cid[i] = -1; }
+	  snprintf(nm, sizeof nm, "blocks_with_longest_run_%02llu_steps", (unsigned long long)max_iter_seen); mc_count_id(&cid[max_iter_seen], nm, 1); }
 	mc_nontrivial(0x1000000 + idx);
 	mc_observe("states block %llu (%s) x %d bounds: %llu calls, longest rejection run %llu steps", (unsigned long long)idx, STATEBITS >= 31 ? "consecutive" : "spread", NTOPS, (unsigned long long)n_calls, (unsigned long long)max_iter_seen);
 }
